@@ -120,7 +120,9 @@ CallOf(p) ==
                   [] what = "both_scores_bad" -> PStr("abc")
                   [] what = "scores_negs"  -> PList([i \in 1..n |-> PInt(ToString(0 - i))])
                   [] OTHER -> PNone
-  IN  [m |-> ki, op |-> op, teams |-> teams, ranks |-> ranks, scores |-> scores, tau |-> PNone, limit |-> PNone]
+      \* what a call does before it has looked at its arguments may depend on its options: every third substitution with limit_sigma
+      limit == IF what = "teams" /\ op = "rate" /\ k % 3 = 0 THEN PBool(TRUE) ELSE PNone
+  IN  [m |-> ki, op |-> op, teams |-> teams, ranks |-> ranks, scores |-> scores, tau |-> PNone, limit |-> limit]
 
 \* falsy non-list selectors are treated by the library as omitted; the property does not speak about them
 Unspecified(c) == \/ (c.ranks.t \in {"float", "int", "numlike"} /\ RIsReal(c.ranks.v) /\ RIsZero(c.ranks.v))
